@@ -416,17 +416,58 @@ theorem prettifyWith_ne_empty_segs (dot : List El → String) (is : List IssueGo
   | nil => exact absurd rfl h
   | cons i r => rfl
 
-/-- **a non-empty error never formats to an empty report — for every element type** -/
+/-- the segment of an issue is empty only for a root issue with an empty message -/
+theorem prettySegGo_eq_empty_iff (i : IssueGo) :
+    prettySegWith dotPathGo i = "" ↔ i.path = [] ∧ i.msg = "" := by
+  unfold prettySegWith
+  cases hp : i.path with
+  | nil => simp
+  | cons s p =>
+    simp only [reduceCtorEq, false_and, iff_false]
+    intro h
+    have := congrArg String.toList h
+    simp at this
+
+/-- **the exact region in which PrettifyError's report is the empty string — for every element type**:
+    one issue, filed at the root, whose message (what the mapper / formatter returned for it) is empty -/
+theorem c19_go_prettify_empty_iff (is : List IssueGo) :
+    prettifyGo is = "" ↔ ∃ i, is = [i] ∧ i.path = [] ∧ i.msg = "" := by
+  unfold prettifyGo prettifyWith
+  rw [semi_intercalate_eq_empty_iff]
+  cases is with
+  | nil => simp
+  | cons i r =>
+    cases r with
+    | nil => simp [prettySegGo_eq_empty_iff]
+    | cons j r => simp
+
+/-- **a non-empty error never formats to an empty report — for every element type**: Flatten, Treeify
+    and FormatError for every error; PrettifyError (the definition the driver runs) when no message is
+    the empty string (hypothesis; without it: `c19_go_prettify_nonempty_full_false`) -/
 theorem c19_go_nonempty (is : List IssueGo) (h : is ≠ []) :
-    0 < (flattenGo is).count ∧ 0 < (treeifyGo is).count ∧ 0 < (formatGo is).count := by
+    0 < (flattenGo is).count ∧ 0 < (treeifyGo is).count ∧ 0 < (formatGo is).count ∧
+    ((∀ i ∈ is, i.msg ≠ "") → prettifyGo is ≠ "") := by
   have hl : 0 < is.length := by cases is with | nil => exact absurd rfl h | cons _ _ => simp
   have hn : normList is ≠ [] := by
     cases is with
     | nil => exact absurd rfl h
     | cons i r => simp [normList]
-  refine ⟨by rw [c19_go_flatten_count]; exact hl, by rw [c19_go_tree_count]; exact hl, ?_⟩
-  rw [formatGo_eq]
-  exact (c19_nonempty (normList is) hn).2.2.2
+  refine ⟨by rw [c19_go_flatten_count]; exact hl, by rw [c19_go_tree_count]; exact hl, ?_, ?_⟩
+  · rw [formatGo_eq]
+    exact (c19_nonempty (normList is) hn).2.2.2
+  · intro hm he
+    obtain ⟨j, hj, _, hmsg⟩ := (c19_go_prettify_empty_iff _).mp he
+    exact hm j (by rw [hj]; simp) hmsg
+
+example : (∀ i ∈ [IssueGo.mk .tooBig [.str "a", .int (-1), .other "1.5"] "m1" [] [], .mk .custom [] "m2" [] []], i.msg ≠ "") := by
+  intro i hi; simp at hi; rcases hi with rfl | rfl <;> decide
+
+def c19_go_prettify_nonempty_full : Prop := ∀ is : List IssueGo, is ≠ [] → prettifyGo is ≠ ""
+
+/-- witness (the run re-derives it on the real code, entry-point variant `blank-formatter`) -/
+theorem c19_go_prettify_nonempty_full_false : ¬ c19_go_prettify_nonempty_full := by
+  intro h
+  exact h [.mk .custom [] "" [] []] (by simp) (by decide)
 
 /-! ## wrapper issues nested to any depth (union inside union inside element …) -/
 
